@@ -400,7 +400,7 @@ func siOps() []siOp {
 		}
 	}
 	ops = append(ops, siOp{"add", []int{}}, siOp{"remove", []int{4}})
-	for b := 0; b < 64; b++ {
+	for b := 0; b < 1<<uint(len(siU)); b++ {
 		ops = append(ops, siOp{"union", siSubset(b)})
 	}
 	return ops
@@ -413,14 +413,26 @@ type siHist struct {
 func runC17(c *Ctx) {
 	c.Level = "exploration"
 	c.Rule = "all 64 subsets of U={-3,-1,0,1,2,5}: every ordered pair for the binary functions, every x for Remove/ContainsSingle, every argument list of length <= 4 over U (1555 lists) for Add/NewSortedInts, receivers with 0/1/k spare capacity (sentinel tails), Complement(n<=7), Range over [-5,5]^2 x [-3,3]; explicit-state BFS over mutation histories of one value keyed by exact slice content; ints.Sort vs sort.Ints on all sequences over {0,1,2} of length <= 9, all permutations of length <= 8 and adversarial families up to length 600; non-trivial = case whose operands are both non-empty (or list length >= 2)"
+	listLen, seqLen, permLen, rangeSpan, stepSpan := 4, 9, 8, 5, 3
+	if c.Thorough() {
+		// thorough: an 8-element universe (256 subsets), argument lists up to length 5, longer sort inputs
+		siU = []int{-3, -1, 0, 1, 2, 5, 6, 9}
+		listLen, seqLen, permLen, rangeSpan, stepSpan = 5, 14, 10, 9, 4
+		c.Rule += "; THOROUGH: U={-3,-1,0,1,2,5,6,9} (256 subsets), argument lists of length <= 5 (37449), Range over [-9,9]^2 x [-4,4], sort inputs over {0,1,2} up to length 14 and all permutations up to length 10, adversarial families up to length 2100, mutation histories explored to closure"
+	}
+	nSub := 1 << uint(len(siU))
+	c.Bound("universe_size", len(siU))
+	c.Bound("argument_list_length", listLen)
+	c.Bound("sort_sequence_length", seqLen)
+	c.Bound("sort_permutation_length", permLen)
 	// binary functions
 	for _, fn := range []string{"Union", "Intersection", "IntersectionSize", "SetMinus", "XOR", "ContainsSorted", "UnionMethod"} {
 		caps := []int{0}
 		if fn == "UnionMethod" {
 			caps = []int{0, 1, 2, 6}
 		}
-		for a := 0; a < 64; a++ {
-			for b := 0; b < 64; b++ {
+		for a := 0; a < nSub; a++ {
+			for b := 0; b < nSub; b++ {
 				for _, ca := range caps {
 					sc := siCase{Fn: fn, A: siSubset(a), B: siSubset(b), CapA: ca}
 					c.Check(func() *Failure { return evalSI(sc) })
@@ -431,7 +443,7 @@ func runC17(c *Ctx) {
 			}
 		}
 	}
-	for a := 0; a < 64; a++ {
+	for a := 0; a < nSub; a++ {
 		for _, ca := range []int{0, 1, 6} {
 			sc := siCase{Fn: "UnionMethodSelf", A: siSubset(a), CapA: ca}
 			c.Check(func() *Failure { return evalSI(sc) })
@@ -556,7 +568,7 @@ func runC17(c *Ctx) {
 	var rec func(cur []int, l int)
 	rec = func(cur []int, l int) {
 		lists = append(lists, append([]int{}, cur...))
-		if l == 4 {
+		if l == listLen {
 			return
 		}
 		for _, v := range siU {
@@ -570,7 +582,7 @@ func runC17(c *Ctx) {
 			l := lists[i]
 			sc := siCase{Fn: "NewSortedInts", Args: l}
 			c.Check(func() *Failure { return evalSI(sc) })
-			for a := 0; a < 64; a++ {
+			for a := 0; a < nSub; a++ {
 				for _, ca := range []int{0, 1, len(l)} {
 					sc := siCase{Fn: "Add", A: siSubset(a), Args: l, CapA: ca}
 					c.Check(func() *Failure { return evalSI(sc) })
@@ -582,9 +594,9 @@ func runC17(c *Ctx) {
 		}
 	})
 	// Range
-	for s := -5; s <= 5; s++ {
-		for e := -5; e <= 5; e++ {
-			for st := -3; st <= 3; st++ {
+	for s := -rangeSpan; s <= rangeSpan; s++ {
+		for e := -rangeSpan; e <= rangeSpan; e++ {
+			for st := -stepSpan; st <= stepSpan; st++ {
 				rc := rangeCase{s, e, st}
 				c.Check(func() *Failure { return evalRange(rc) })
 				if s != e && st != 0 {
@@ -632,8 +644,8 @@ func runC17(c *Ctx) {
 			seq = seq[:len(seq)-1]
 		}
 	}
-	recSeq(0, 9)
-	for n := 0; n <= 8; n++ {
+	recSeq(0, seqLen)
+	for n := 0; n <= permLen; n++ {
 		perms := allPerms(n)
 		c.parFor(int64(len(perms)), 256, func(lo, hi int64) {
 			for i := lo; i < hi; i++ {
